@@ -64,6 +64,23 @@ def _n(sites, t):
     return [x[1] for x in sites].index(t)
 
 
+def _wedge_codes(fn):
+    """(code written for s == 1, code written otherwise) from `s == 1 and "X" or "Y"` or `"X" if s == 1 else "Y"` anywhere in the writer (f-string or local)"""
+    out = []
+    for n in ast.walk(fn):
+        if isinstance(n, ast.BoolOp) and isinstance(n.op, ast.Or) and len(n.values) == 2 and isinstance(n.values[1], ast.Constant) and \
+                isinstance(n.values[0], ast.BoolOp) and isinstance(n.values[0].op, ast.And) and len(n.values[0].values) == 2 and \
+                src(n.values[0].values[0]).replace(' ', '') == 's==1' and isinstance(n.values[0].values[1], ast.Constant):
+            out.append((str(n.values[0].values[1].value), str(n.values[1].value)))
+        elif isinstance(n, ast.IfExp) and isinstance(n.body, ast.Constant) and isinstance(n.orelse, ast.Constant):
+            t = src(n.test).replace(' ', '')
+            if t == 's==1':
+                out.append((str(n.body.value), str(n.orelse.value)))
+            elif t in ('s!=1', 's==-1'):
+                out.append((str(n.orelse.value), str(n.body.value)))
+    return out
+
+
 def rule_v2000_books(ck, repo, R):
     ck.rule(R, 'V2000 code books are mutually inverse: atom-block charge codes for -3..3, M  CHG lines exactly for the charges the atom block cannot hold (+-4), '
                'M  ISO / M  RAD emission vs parsing, wedge codes 1 / 6; V3000 CHG= RAD= MASS= CFG=1/3 keys on both sides; radical code 2')
@@ -87,7 +104,7 @@ def rule_v2000_books(ck, repo, R):
     ps = src(pr.node)
     ck.decide("line.startswith(('M  ISO', 'M  RAD', 'M  CHG'))" in ps and '_ctf_data[line[3]]' in ps, R, 'v2000:property-lines-read', None, 'parser no longer reads M  ISO / RAD / CHG through _ctf_data', file=pr.file, line=pr.lineno)
     # wedge codes
-    wcodes = re.findall(r's == 1 and "(\d)" or "(\d)"', s)
+    wcodes = _wedge_codes(mw.node)
     ck.require(len(wcodes) == 1, 'MOLWrite: wedge code expression not found')
     up, down = wcodes[0]
     rd = {}
@@ -108,8 +125,8 @@ def rule_v2000_books(ck, repo, R):
     for key, wfrag in (('CHG', "f' CHG={a.charge}' if a.charge else ''"), ('RAD', "' RAD=2' if a.is_radical else ''"), ('MASS', "f' MASS={a.isotope}' if a.isotope else ''")):
         wfrag = wfrag
         ck.decide(wfrag in es and f"k == '{key}'" in rs, R, f'v3000:{key}', None, f'V3000 {key}= is not handled symmetrically (writer `{wfrag}` / reader `k == {key!r}`)', file=ew.file, line=ew.lineno)
-    w3 = re.findall(r'CFG=\{s == 1 and "(\d)" or "(\d)"\}', es)
-    ck.require(len(w3) == 1, 'EMOLWrite: CFG code expression not found')
+    w3 = _wedge_codes(ew.node)
+    ck.require(len(w3) == 1 and 'CFG=' in es, 'EMOLWrite: CFG code expression not found')
     cfg = {}
     for n in ast.walk(er.node):
         if isinstance(n, ast.If):
